@@ -77,9 +77,14 @@ func (allocEngine) Gen(rng *rand.Rand, tier string, i int) any {
 			c.Ops = 400
 		}
 		var start uint32
-		switch rng.Intn(5) {
+		switch rng.Intn(6) {
 		case 0:
 			start = 0
+		case 5:
+			// address classes that mean something special elsewhere (link-local, multicast, loopback, shared,
+			// documentation, broadcast-adjacent): to an allocator they are addresses like any other
+			sp := []uint32{0xa9fe0000, 0xa9fe0a00, 0xe0000000, 0x7f000000, 0x64400000, 0xc0000200, 0xf0000000}[rng.Intn(7)]
+			start = sp + uint32(rng.Intn(200))
 		case 1:
 			start = uint32(0x100000000 - uint64(n)) // ends at 255.255.255.255
 		case 2:
@@ -101,12 +106,18 @@ func (allocEngine) Gen(rng *rand.Rand, tier string, i int) any {
 	}
 	c.PoolLen, c.Page = sh[0], sh[1]
 	base := engarith.Pattern128(rng)
-	switch rng.Intn(4) {
+	switch rng.Intn(5) {
 	case 0:
 		base.SetString("20010db8000000000000000000000000", 16)
 		base.Add(base, new(big.Int).Lsh(big.NewInt(int64(rng.Intn(1<<16))), 64))
 	case 1:
 		base.Sub(engarith.Two128, big.NewInt(1)) // all ones, masked below
+	case 4:
+		// link-local, multicast, unique-local, 6to4, NAT64, IPv4-mapped space: still just addresses
+		sp := []string{"fe800000000000000000000000000000", "fe80000000000000abcd000000000000", "ff020000000000000000000000000000", "fc000000000000000000000000000000",
+			"20020a00000100000000000000000000", "0064ff9b000000000000000000000000", "00000000000000000000ffff0a000000", "febf0000000000000000000000000000"}[rng.Intn(8)]
+		base.SetString(sp, 16)
+		base.Add(base, new(big.Int).Lsh(big.NewInt(int64(rng.Intn(1<<12))), uint(rng.Intn(64))))
 	}
 	sft := uint(128 - c.PoolLen)
 	base.Rsh(base, sft)
@@ -124,17 +135,17 @@ func (allocEngine) Decode(raw json.RawMessage) (any, error) {
 func u32ip(v uint32) net.IP { return net.IPv4(byte(v>>24), byte(v>>16), byte(v>>8), byte(v)).To4() }
 
 type allocRun struct {
-	ctx      *fw.Ctx
-	c        *allocCase
-	rng      *rand.Rand
-	a        allocators.Allocator
-	pool     *model.Pool
-	out      map[uint64]bool // outstanding
-	freed    []uint64        // blocks freed at some point
-	trace    []string
-	polluted bool // a C06 violation happened: the model no longer knows the state
+	ctx                                           *fw.Ctx
+	c                                             *allocCase
+	rng                                           *rand.Rand
+	a                                             allocators.Allocator
+	pool                                          *model.Pool
+	out                                           map[uint64]bool // outstanding
+	freed                                         []uint64        // blocks freed at some point
+	trace                                         []string
+	polluted                                      bool // a C06 violation happened: the model no longer knows the state
 	sawRealloc, sawFull, sawFailFree, sawHintFree bool
-	classes  map[string]bool
+	classes                                       map[string]bool
 }
 
 func (r *allocRun) tr(format string, a ...any) {
@@ -361,6 +372,12 @@ func (r *allocRun) doAlloc() {
 				hint.Mask = net.CIDRMask(l, 128)
 				hintLen = l
 				maskClass = "len>=page"
+				if r.rng.Intn(2) == 0 {
+					// a canonical sub-prefix of the block (no bits beyond its own length), as a client that was
+					// once given a smaller prefix would send it
+					hint.IP = hint.IP.Mask(hint.Mask)
+					maskClass = "len>=page,canonical"
+				}
 			case 3:
 				l := r.rng.Intn(p.Page + 1)
 				hint.Mask = net.CIDRMask(l, 128)
@@ -387,6 +404,19 @@ func (r *allocRun) doAlloc() {
 	}
 	got, err := r.a.Allocate(hint)
 	r.tr("Allocate(%s %s %s)=%s,%v", class, maskClass, ipnetStr(hint), ipnetStr(got), err)
+	if err == nil {
+		// the caller owns its hint: it may reuse those buffers for something else as soon as the call is over,
+		// and what it was given must not change with them
+		before := ipnetStr(got)
+		scribble(hint.IP)
+		scribble(hint.Mask)
+		if after := ipnetStr(got); after != before {
+			for _, pr := range []string{"C04", "C05"} {
+				r.viol(pr, "alloc-result-aliases-hint", "Allocate returned %s; after the caller overwrote its own hint buffers the returned value reads %s: the allocation shares memory with the hint", before, after)
+			}
+			return
+		}
+	}
 	r.ctx.Count("alloc.op.alloc."+class, 1)
 	full := uint64(len(r.out)) >= p.N
 	if err != nil {
@@ -560,6 +590,8 @@ func (r *allocRun) doFree() {
 	_ = fullBits
 	err := r.a.Free(target)
 	r.tr("Free(%s %s)=%v", class, ipnetStr(target), err)
+	scribble(target.IP)
+	scribble(target.Mask)
 	r.ctx.Count("alloc.op.free."+class, 1)
 	if r.polluted {
 		return
@@ -680,6 +712,13 @@ func probeFullV4(ctx *fw.Ctx, c *allocCase) {
 		seen[got.IP.String()] = true
 	}
 	ctx.Count("alloc.probe.fullrange.ok", 1)
+}
+
+// scribble overwrites a buffer the engine itself created for one call (never one it was given).
+func scribble(b []byte) {
+	for i := range b {
+		b[i] = 0x5a
+	}
 }
 
 func ipnetStr(n net.IPNet) string {
